@@ -165,6 +165,11 @@ def _f_vec(fam, p, z):
         s = sum(z[i] * PRIMES[i % len(PRIMES)] for i in range(n))
         v = math.sin(s) * 43758.5453
         return float(_frac(v)) if math.isfinite(v) else float("nan")
+    if fam == "penalty":           # death penalty: +inf outside the feasible box, coordinate-weighted sphere inside
+        t = p.get("thr", 1.0)
+        if any((zi != zi) or abs(zi) > t for zi in z):
+            return float("inf")
+        return float(sum((i + 1) * (z[i] - 0.1 * (i + 1)) ** 2 for i in range(n)))
     if fam == "hinge":             # tolerance band: exactly 0 on a whole region, coordinate-weighted outside
         t = p.get("tol", 1.0)
         return float(sum((i + 1) * max(0.0, abs(z[i]) - t) if z[i] == z[i] else float("nan") for i in range(n)))
@@ -194,7 +199,7 @@ def _f_perm(fam, p, perm):
     raise ValueError(fam)
 
 
-VEC_FAMS = ("sphere", "abs", "linear", "rastrigin", "hash", "plateau", "hinge")
+VEC_FAMS = ("sphere", "abs", "linear", "rastrigin", "hash", "plateau", "hinge", "penalty")
 PERM_FAMS = ("sq", "assign", "tour")
 
 
